@@ -165,6 +165,42 @@ Proof.
 Qed.
 Print Assumptions C12_model_meets_oracle.
 
+(* ---- large graphs: the frontier formulation evaluated instead of the exponential path walk --- *)
+(* (level-by-level walk of the nodes reached by walks with exactly k edges, QueriesBig.v) is EQUAL
+   to the model's node_depth / node_depth_list / depth on closed graphs *)
+Theorem C12_frontier_equals_model : forall g, wf g ->
+  depth g = Ok (depth_fast g) /\
+  (forall v, v < length g -> node_depth g v = Ok (node_depth_fast g v)) /\
+  (forall vs, (forall v, In v vs -> v < length g) -> vs <> [] -> node_depth_list g vs = Ok (ndl_fast g vs)).
+Proof.
+  intros g H. split; [apply depth_fast_eq; exact H|].
+  split; [intros v Hv; apply node_depth_fast_eq; assumption|intros vs Hr Hne; apply ndl_fast_eq; assumption].
+Qed.
+Print Assumptions C12_frontier_equals_model.
+
+(* and decides the specification by itself *)
+Theorem C12_frontier_decides : forall g, wf g ->
+  (cyclic_fast g = true <-> cyclic g) /\
+  (forall v, v < length g -> (cycfrom_fast g v = true <-> cycle_from g v)) /\
+  (forall v, v < length g -> ~ cycle_from g v -> height g v (lfast g [v])) /\
+  (forall vs, (forall v, In v vs -> v < length g) -> vs <> [] ->
+     (lfast g vs = hlimit g <-> exists v, In v vs /\ cycle_from g v) /\
+     (lfast g vs <> hlimit g -> lheight g vs (lfast g vs))) /\
+  (forall v, In v (sinks_fast g) <-> sink g v).
+Proof.
+  intros g H. split; [apply cyclic_fast_iff; exact H|].
+  split; [intros v Hv; apply cycfrom_fast_iff; assumption|].
+  split; [intros v Hv; apply height_fast_correct; assumption|].
+  split; [intros vs Hr Hne; apply lfast_spec; assumption|apply sinks_fast_iff].
+Qed.
+Print Assumptions C12_frontier_decides.
+
+(* the executable check applied to the observed answers on large graphs *)
+Theorem C12_holds_big_sound : forall g ob, wf g ->
+  forallb (fun b => b) (holds_big_l g ob) = true -> bobs_spec g ob.
+Proof. exact holds_big_sound. Qed.
+Print Assumptions C12_holds_big_sound.
+
 (* ---- non-vacuity: the hypotheses are satisfiable by non-trivial graphs ------------------------ *)
 Definition ex_dag : dg := [[1; 2]; [2; 3]; [3]; []; [3]].        (* 0 <- 1,2 ; 1 <- 2,3 ; 2 <- 3 ; 4 <- 3 *)
 Definition ex_cyc : dg := [[1]; [2]; [0; 3]; []; [4]].           (* 0 -> 1 -> 2 -> 0, self-loop at 4 *)
@@ -187,6 +223,9 @@ Example ex_cyc_answers :
   has_cycle ex_cyc = Some true /\ depth ex_cyc = Ok (-1)%Z /\
   hierarchy ex_cyc 0 = Raise /\ hierarchy ex_cyc 3 = Ok [3] /\
   node_depth ex_cyc 1 = Ok (-1)%Z /\ node_depth ex_cyc 3 = Ok 1%Z /\ node_depth ex_cyc 4 = Ok (-1)%Z.
+Proof. vm_compute. repeat split. Qed.
+Example ex_frontier : depth_fast ex_dag = 4%Z /\ node_depth_fast ex_dag 1 = 3%Z /\ ndl_fast ex_dag [4; 1; 3] = 3%Z /\
+  cyclic_fast ex_cyc = true /\ cycfrom_fast ex_cyc 3 = false /\ node_depth_fast ex_cyc 1 = (-1)%Z /\ sinks_fast ex_dag = [0; 4].
 Proof. vm_compute. repeat split. Qed.
 Example ex_cyc_cyclic : cyclic ex_cyc /\ cycle_from ex_cyc 1 /\ ~ cycle_from ex_cyc 3.
 Proof.
